@@ -13,7 +13,7 @@
    helper thread and the allocation of file offsets (any injective
    allocation [alloc chain index] is covered). *)
 From PV Require Import Base.Tac Prof.ProfDefs Prof.ProfBytes Prof.ProfWriter Prof.ProfEvents Prof.ProfFile
-  Prof.ProfTables Prof.ProfDump Prof.ProfWhole.
+  Prof.ProfTables Prof.ProfDump Prof.ProfWhole Prof.ProfMerge.
 From Coq Require Import NArith.
 Local Open Scope N_scope.
 
@@ -189,6 +189,29 @@ Proof.
   repeat constructor; vm_compute; try discriminate; auto.
 Qed.
 Print Assumptions C42_dump_thread_info_loop_prefix_refuted.
+
+(* Several files / merged dictionary (read_dictionary, dico_map).  For every list
+   of per-file dictionaries (any keys, any registration order, duplicates after
+   truncation included), opened in any order: through the map of file f, local
+   entry j is presented with the name, info length and convertor file f wrote
+   (the attributes are those of the first equal entry met) ... *)
+Theorem C42_merged_dictionary_returns_written_key : forall files merged maps f local,
+  merge_files [] files = (merged, maps) -> nth_error files f = Some local ->
+  exists mp, nth_error maps f = Some mp /\ length (presented merged mp) = length local /\
+    forall j k, nth_error local j = Some k ->
+      let p := nth j (presented merged mp) kent0 in
+      k_name p = k_name k /\ k_ilen p = k_ilen k /\ cstr (k_conv p) = cstr (k_conv k).
+Proof. exact presented_is_written. Qed.
+Print Assumptions C42_merged_dictionary_returns_written_key.
+(* ... and the events of file f decoded with the merged dictionary are those
+   decoded with its own dictionary ([decode] = decode_keys then decode_rest,
+   ProfMerge.decode_split), to which C42_read_back applies *)
+Theorem C42_events_through_merged_dictionary : forall files merged maps f local fuel file toff tn,
+  merge_files [] files = (merged, maps) -> nth_error files f = Some local ->
+  exists mp, nth_error maps f = Some mp /\
+    decode_rest fuel file toff tn (presented merged mp) = decode_rest fuel file toff tn local.
+Proof. exact decode_rest_through_merge. Qed.
+Print Assumptions C42_events_through_merged_dictionary.
 
 (* non-vacuity: a profile with two dictionary entries and three streams (one
    silent) in buffers of 25 + 300 bytes: the dictionary, the thread table and
